@@ -172,7 +172,7 @@ pub fn gen_config(rng: &mut Rng, profile: Profile) -> Config {
     let (ttl, tti) = match profile {
         Ttl => (Some(pick_duration(rng)), if rng.chance(1, 3) { Some(pick_duration(rng)) } else { None }),
         Tti => (if rng.chance(1, 3) { Some(pick_duration(rng)) } else { None }, Some(pick_duration(rng))),
-        Pure => (if rng.chance(1, 4) { Some(pick_duration(rng)) } else { None }, if rng.chance(2, 3) { Some(pick_duration(rng)) } else { None }),
+        Pure => (if rng.chance(1, 2) { Some(pick_duration(rng)) } else { None }, if rng.chance(1, 2) { Some(pick_duration(rng)) } else { None }),
         Lru | Admission => {
             if rng.chance(1, 4) {
                 (if rng.chance(1, 2) { Some(pick_duration(rng)) } else { None }, if rng.chance(1, 2) { Some(pick_duration(rng)) } else { None })
@@ -444,8 +444,57 @@ impl Gen {
         let k = self.rng.below(nkeys as u64) as u32;
         let resident: Vec<u32> = truth.visible_candidates(now);
         let non_resident: Vec<u32> = (0..nkeys).filter(|x| !resident.contains(x)).collect();
-        let choice = if self.profile == Profile::Batch && self.rng.chance(1, 4) { 99 } else { self.rng.below(8) };
+        let choice = if self.profile == Profile::Batch && self.rng.chance(1, 4) {
+            99
+        } else if self.profile == Profile::Pure && self.rng.chance(1, 3) {
+            98
+        } else {
+            self.rng.below(8)
+        };
         match choice {
+            // pending work: an update grows a resident (on the single-threaded cache the size excess
+            // stays until a later call removes it), the clock moves to the next deadline, then one
+            // operation has to do both the purge and the eviction. An observation slipped in before
+            // it must not change which entries survive.
+            98 => {
+                // the entry whose time-to-live ends first is read (so it is not the eviction victim)
+                let oldest = resident.iter().filter_map(|r| truth.cur(*r).map(|l| (l.t_mod, *r))).min();
+                let target = match (cfg.ttl, oldest) {
+                    (Some(ttl), Some((t_mod, e))) if t_mod.saturating_add(ttl) > now => Some((t_mod.saturating_add(ttl), e)),
+                    _ => None,
+                };
+                match target {
+                    Some((_, e)) if self.rng.chance(3, 4) => self.script.push_back(Op::Get { k: e }),
+                    _ => {
+                        if let (Some(r), true) = (resident.first(), self.rng.chance(1, 2)) {
+                            self.script.push_back(Op::Get { k: *r });
+                        }
+                    }
+                }
+                let others: Vec<u32> = resident.iter().copied().filter(|r| Some(*r) != target.map(|t| t.1)).collect();
+                let c = if others.is_empty() { k } else { *self.rng.pick(&others) };
+                let cap = cfg.cap.unwrap_or(4).min(1000);
+                let w = if cfg.weigher { self.rng.range(2, cap.max(2)) as u32 } else { 1 };
+                let vid = self.vid();
+                self.script.push_back(Op::Insert { k: c, vid, w });
+                let deadline = match target {
+                    Some((d, _)) if self.rng.chance(3, 4) => Some(d),
+                    _ => truth.next_deadline(now),
+                };
+                if let (Some(d), true) = (deadline, self.rng.chance(4, 5)) {
+                    self.script.push_back(Op::Advance { ns: d - now });
+                }
+                let o = self.rng.below(nkeys as u64 + 2) as u32;
+                let vid2 = self.vid();
+                let last = match self.rng.below(6) {
+                    0 | 1 => Op::Invalidate { k: o },
+                    2 => Op::Get { k: o },
+                    3 => Op::Insert { k: o % nkeys, vid: vid2, w: 1 },
+                    4 if cfg.kind == Kind::Unsync => Op::InvalidateIf { p: Pred::Nothing },
+                    _ => Op::Invalidate { k: c },
+                };
+                self.script.push_back(last);
+            }
             // a popular, heavy candidate is queued first; then every other resident from the LRU end is
             // invalidated while the candidate's op is still queued: its victim scan has to walk past
             // scattered nodes whose entries have left the map
